@@ -21,6 +21,7 @@ mod ops_schema;
 mod schema;
 mod prng;
 mod sexp;
+mod zst;
 
 use std::io::{BufRead, Write};
 
@@ -105,7 +106,10 @@ fn real_main() {
                     ops_codec::gen_c01(&mut r, thorough, &mut out);
                     ops_c14::gen_real(&mut r, thorough, &mut out);
                 }
-                "C02" => ops_codec::gen_c02(&mut r, thorough, &mut out),
+                "C02" => {
+                    ops_codec::gen_c02(&mut r, thorough, &mut out);
+                    ops_c14::gen_real(&mut r, thorough, &mut out);
+                }
                 "C03" => ops_codec::gen_c03(&mut r, thorough, &mut out),
                 "C16" => ops_schema::gen_c16(&mut r, thorough, &mut out),
                 "C15" => ops_schema::gen_c15(&mut r, thorough, &mut out),
@@ -148,6 +152,9 @@ fn real_main() {
                 guard::CUR_LINE.store(ctx.line_no, std::sync::atomic::Ordering::Relaxed);
                 ctx.line = line.clone();
                 core_ops::poison();
+                if matches!(ctx.prop.as_str(), "C14" | "C15" | "C16" | "C17" | "C18" | "C19") {
+                    core_ops::poison_schema();
+                }
                 let a = eval_line(&mut ctx, &line);
                 if a.starts_with("FAIL") {
                     ctx.oracle_fail(a.clone());
